@@ -23,8 +23,14 @@ def handle (s : DState) (line0 : String) : DState :=
   | "I" => { s with acc := handleInteger acc kv line }
   | "VCFG" => let (a, h) := handleVCfg acc s.vh kv line; { s with acc := a, vh := h }
   | "CFG" =>
-    let (a, h) := handleWCfg acc kv line
-    if kv.str "w" == "B" then { s with acc := a, whB := h } else { s with acc := a, wh := h, twinA := none, twinDiverged := false }
+    if kv.str "w" == "B" then
+      let (a, h) := handleWCfg acc s.whB kv line
+      { s with acc := a, whB := h }
+    else
+      -- consecutive mini-histories of a search keep referring to the log of the source history
+      let prev := if s.wh.srcOf.isSome then { s.wh with liqLog := s.wh.baseLog } else s.wh
+      let (a, h) := handleWCfg acc prev kv line
+      { s with acc := a, wh := h, twinA := none, twinDiverged := false }
   | "TX" =>
     if kv.str "w" == "B" then let (a, h) := handleWTx acc s.whB kv line; { s with acc := a, whB := h }
     else let (a, h) := handleWTx acc s.wh kv line; { s with acc := a, wh := h }
